@@ -33,7 +33,7 @@ BUILTINS = {
     "int", "float", "len", "range", "round", "abs", "min", "max", "str", "enumerate", "zip", "map",
     "set", "tuple", "list", "sorted", "isinstance", "open", "print", "sum", "bool", "dict", "any", "all",
     "complex", "type", "ValueError", "IOError", "ImportError", "BaseException", "Exception",
-    "KeyError", "TypeError", "reversed", "divmod", "pow", "iter", "next", "getattr", "hasattr",
+    "KeyError", "TypeError", "reversed", "divmod", "pow", "iter", "next", "getattr", "hasattr", "slice", "IndexError",
 }
 
 BINOPS = {
@@ -566,7 +566,21 @@ class Interp:
                     self.expr(n.step) if n.step else NONE)
         if isinstance(n, ast.Tuple):
             return ("tuple", tuple(self.index(e) for e in n.elts))
-        return self.expr(n)
+        return self._as_slice(self.expr(n))
+
+    @staticmethod
+    def _as_slice(t: Term) -> Term:
+        """slice(a, b[, c]) objects used as subscripts are the same as a:b[:c]"""
+        if t[0] == "call" and t[1] == "builtins.slice" and 1 <= len(t[2]) <= 3 and not t[3]:
+            a = list(t[2])
+            if len(a) == 1:
+                a = [NONE, a[0]]
+            while len(a) < 3:
+                a.append(NONE)
+            return ("slice", a[0], a[1], a[2])
+        if t[0] == "tuple":
+            return ("tuple", tuple(Interp._as_slice(x) for x in t[1]))
+        return t
 
     def expr(self, n: Optional[ast.expr]) -> Term:
         if n is None:
